@@ -79,7 +79,13 @@ def eq_trees(a, b, tol=None):
     lb, tb = jax.tree_util.tree_flatten(b, is_leaf=isleaf)
     if ta != tb:
         return z3.BoolVal(False)
-    gs = [eq_arrays(x, y, tol) for x, y in zip(la, lb)]
+    gs = []
+    for x, y in zip(la, lb):
+        if isinstance(x, str) or isinstance(y, str):
+            if x != y:
+                return z3.BoolVal(False)
+            continue
+        gs.append(eq_arrays(x, y, tol))
     return z3.And(*gs) if gs else z3.BoolVal(True)
 
 
